@@ -311,9 +311,42 @@ def _nest(rng: random.Random, fs: list) -> list:
     return _nest(rng, fs[:i] + [inner] + fs[j:]) if len(fs[:i] + [inner] + fs[j:]) > 2 else ["*", fs[:i] + [inner] + fs[j:]]
 
 
+def _atoms(r: list, path: tuple = ()) -> list[tuple]:
+    t = r[0]
+    if t in ("P", "PP"):
+        return [path]
+    if t == "*":
+        return [p for i, x in enumerate(r[1]) for p in _atoms(x, path + (1, i))]
+    if t == "S":
+        return _atoms(r[2], path + (2,))
+    if t == "/":
+        return _atoms(r[1], path + (1,)) + _atoms(r[2], path + (2,))
+    return []
+
+
+def _sibling(rng: random.Random, r: list, flags: dict) -> list | None:
+    paths = _atoms(r)
+    if not paths:
+        return None
+    path = rng.choice(paths)
+    out = copy.deepcopy(r)
+    node = out
+    for step in path[:-1]:
+        node = node[step]
+    atom = node[path[-1]] if path else out
+    for _ in range(8):
+        new = _near_dup(rng, atom, flags)
+        if new != atom:
+            break
+    if not path:
+        return new
+    node[path[-1]] = new
+    return out
+
+
 def gen_case(seed: int, s: int) -> dict:
     rng = random.Random(f"{seed}:C11:{s}")
-    names = world.gen_names(rng, rng.randint(3, 6))
+    names = world.gen_names(rng, rng.randint(3, 6), common=rng.random() < 0.25)
     flags = {
         "tie_first_child": rng.random() < 0.3,
         "same_name_cf": rng.random() < 0.15,
@@ -338,7 +371,14 @@ def gen_case(seed: int, s: int) -> dict:
     if len(allnames) >= 2 and rng.random() < 0.5:
         a, b = rng.sample(allnames, 2)
         other = json.loads(json.dumps(present(rng, r)).replace(json.dumps(a), json.dumps(b)))
-    return {"prop": "C11", "seed": seed, "scenario": s, "recipe": r, "ordering": ordering,
+    # siblings: whole-expression near-duplicates (one atom differs in a value mark, the mark of one
+    # intervention, or the population tag); evaluated in the same interpreter, in a per-worker order
+    siblings = []
+    for _ in range(rng.choice((0, 1, 1, 2))):
+        sib = _sibling(rng, r, flags)
+        if sib is not None and sib != r:
+            siblings.append(sib)
+    return {"prop": "C11", "seed": seed, "scenario": s, "recipe": r, "ordering": ordering, "siblings": siblings,
             "ordering_as_variables": om == "perm-var", "presentations": pres, "other": other, "flags": flags}
 
 
@@ -415,6 +455,22 @@ def run_one_case(case: dict) -> dict:
     e = build(case["recipe"])
     o = _ordering(case)
     io = [ser_var(x) for x in e.get_variables()]
+    # siblings are canonicalised in this interpreter too, before or after the case itself depending on
+    # the (explicit) evaluation order; the parent compares every item across interpreters
+    sibs = case.get("siblings") or []
+    order = case.get("eval_order") or (["obj"] + [f"sib{i}" for i in range(len(sibs))])
+
+    def eval_sib(i: int) -> None:
+        try:
+            sc_ = ser_expr(canonicalize(build(sibs[i]), o))
+        except Exception as ex:  # noqa: BLE001
+            sc_ = f"raised:{type(ex).__name__}"
+        xv[f"sib{i}"] = sc_
+        xd[f"sib{i}"] = digest(sc_)
+
+    for item in order[: order.index("obj")] if "obj" in order else []:
+        eval_sib(int(item[3:]))
+    after = order[order.index("obj") + 1 :] if "obj" in order else []
     try:
         c = canonicalize(e, o)
     except Exception as ex:  # noqa: BLE001
@@ -427,6 +483,8 @@ def run_one_case(case: dict) -> dict:
                 continue
             v("O2", "presentation", f"original-raises:{type(ex).__name__}-presentation-returns", pres=i)
             break
+        for item in after:
+            eval_sib(int(item[3:]))
         return {"viol": viol, "xd": xd, "xv": xv, "io": digest(io), "raised": type(ex).__name__}
     sc = ser_expr(c)
     xv["obj"] = sc
@@ -462,6 +520,8 @@ def run_one_case(case: dict) -> dict:
                 v("O2", "canonical_expr_equal", "false-for-presentation", pres=i)
         except Exception as ex:  # noqa: BLE001
             v("O2", "canonical_expr_equal", f"raised:{type(ex).__name__}", pres=i, msg=str(ex)[:200])
+    for item in after:
+        eval_sib(int(item[3:]))
     # ---- O5 verdicts (compared across workers by the parent)
     if case.get("other") is not None:
         try:
@@ -475,6 +535,16 @@ def run_one_case(case: dict) -> dict:
 # =========================================================================== worker entry points
 
 
+def eval_order(case: dict, wid: int) -> list[str]:
+    items = ["obj"] + [f"sib{i}" for i in range(len(case.get("siblings") or []))]
+    k = wid % 4
+    if k == 1:
+        items.reverse()
+    elif k in (2, 3):
+        random.Random(f"evalorder:{case['seed']}:{case['scenario']}:{wid}").shuffle(items)
+    return items
+
+
 def run_range(args: dict, out: Any) -> None:
     seed, wid = args["seed"], args["wid"]
     t0 = time.time()
@@ -482,11 +552,14 @@ def run_range(args: dict, out: Any) -> None:
     agg: dict[str, Any] = {"top_types": {}, "canon_types": {}, "flags": {}, "raised": {}, "presentations": 0,
                            "verdict_pairs": 0, "str_contains_level2": 0}
     samples = []
-    for s in range(args["lo"], args["hi"]):
+    from order import scenario_order
+
+    for s in scenario_order(args["lo"], args["hi"], seed, wid):
         if time.time() - t0 > args.get("wall", 1e9):
             break
         case = gen_case(seed, s)
         case["hashseed"] = args["hashseed"]
+        case["eval_order"] = eval_order(case, wid)
         res = run_one_case(case)
         done += 1
         tt = case["recipe"][0]
